@@ -612,5 +612,5 @@ def run(tier="quick"):
                        "service order among waiters of different containers"]
     for m in models:
         rep.configs.append(m.config)
-        rules(rep, m)
+        common.run_rules(rep, m, rules)
     return rep.finish()
